@@ -41,6 +41,14 @@ var c14Maps = map[string]bool{"profiles": true, "devices": true, "dedicatedIPToD
 const pdb = "profiledb.(*Default)."
 
 func runC14(c *an.Ctx) {
+	// ---- C14-R10: builder wiring of the components this property rests on
+	c.Floor("C14-R10", 10)
+	builderWiring(c, "C14-R10", map[string][]string{
+		"initDNS|dnssvc.HandlersConfig":                {"ProfileDB"},
+		"initProfileDB|profiledb.Config":               nil,
+		"initProfileDB|backendpb.ProfileStorageConfig": nil,
+		"initProfileDB|agdservice.RefreshWorkerConfig": nil,
+	})
 	if n := sharedLoopCompleteness(c, "C14-R9", "backendpb.", "profiledb"); n > 0 {
 		c.Ok("C14-R9", "element-wise loops", token.NoPos, "%d range loops of the profile conversions examined: no element ends a conversion early", n)
 	}
